@@ -241,7 +241,7 @@ impl Lane for C17 {
     const ID: &'static str = "C17";
     type Body = Body;
 
-    fn draw(rng: &mut Rng, tier: Tier) -> Scenario<Body> {
+    fn draw(rng: &mut Rng, tier: Tier, _run_index: u64) -> Scenario<Body> {
         let kind = rng.below(8);
         let op = draw_top(rng, tier, kind);
         let confs = draw_confs(rng, tier, op.rows());
